@@ -166,9 +166,9 @@ class Fn:
                 return "(arr_rsub %s %s)" % (qa, b), ARR
             if op is ast.Mult:
                 return "(arr_mul %s %s)" % (b, qa), ARR
-        if ta == ARR and tb == ARR and op in (ast.Add, ast.Sub):
+        if ta == ARR and tb == ARR and op in (ast.Add, ast.Sub, ast.Mult):
             t = self.fresh()
-            binds.append((t, "%s %s %s" % ("py_arr_add2" if op is ast.Add else "py_arr_sub2", a, b)))
+            binds.append((t, "%s %s %s" % ({ast.Add: "py_arr_add2", ast.Sub: "py_arr_sub2", ast.Mult: "py_arr_mul2"}[op], a, b)))
             return t, ARR
         if ta == ARR and op is ast.Pow and isinstance(node.right, ast.Constant) and node.right.value == 2:
             return "(arr_sq %s)" % a, ARR
@@ -810,6 +810,8 @@ SIGS = [
          extra_params=[("v_rho", ARR), ("v_w_max", INT), ("v_e_N", INT), ("v_i", INT)],
          env={"w_max": INT, "e_N": INT, "i": INT}, aliases={"self.e_rho[e_name]": ("v_rho", ARR)}),
     dict(coq="_reduce_deltas", py="_reduce_deltas", params=[("deltas", ARR), ("idx_old", IDL), ("idx_new", IDL)], ret=ARR),
+    dict(coq="covariance_calc_gamma", py="_covariance_element.calc_gamma", needs=["_reduce_deltas"],
+         params=[("deltas1", ARR), ("deltas2", ARR), ("idx1", IDL), ("idx2", IDL), ("new_idx", IDL)], ret=FLOAT),
     dict(coq="_expand_deltas_for_merge", py="_expand_deltas_for_merge",
          params=[("deltas", ARR), ("idx", IDL), ("shape", INT), ("new_idx", IDL), ("scalefactor", FLOAT)], ret=ARR),
 ]
